@@ -239,11 +239,37 @@ def _full_batches(ctx, app):
         ups = [n for n, c in K.nodes_calling(
             graph, lambda c: K.is_meth(c, 'upload_batch'))]
         ctx.require(ups, 'upload_batch call in %s' % func.name)
-        short = N.cmp_atom(ast.parse('len(batch)', mode='eval').body, '<',
-                           ast.Name(id='batch_size'))
+        # len(<the collection uploaded, or the slice it is built from>) >=
+        # <the batch size parameter>, whatever the locals are called
+        size = [p for p in func.params() if 'batch' in p and 'size' in p]
+        size = size[0] if size else 'batch_size'
         for node in ups:
-            ok = K.guarded_by(graph, node, lambda e: N.negate(short) in
-                              nz.facts_of_edge(e))
+            call = [c for c in C.node_calls(node)
+                    if K.is_meth(c, 'upload_batch')][0]
+            arg = call.args[-1] if call.args else None
+            cands = set()
+            if arg is not None:
+                # the argument, and what the locals it names are built from
+                ldefs = {}
+                for sub in K.walk_no_nested(func.node):
+                    if isinstance(sub, ast.Assign) and \
+                            len(sub.targets) == 1 and \
+                            isinstance(sub.targets[0], ast.Name):
+                        ldefs.setdefault(sub.targets[0].id, []).append(
+                            sub.value)
+                cands = set(N.mentions(arg))
+                for _level in range(2):
+                    for cand in list(cands):
+                        for val in ldefs.get(cand, []):
+                            if isinstance(val, (ast.ListComp, ast.Name,
+                                                ast.Call)):
+                                cands |= set(N.mentions(val))
+            shorts = [N.negate(N.cmp_atom(
+                ast.parse('len(%s)' % cand, mode='eval').body, '<',
+                ast.Name(id=size))) for cand in sorted(cands)
+                if cand.isidentifier()]
+            ok = K.guarded_by(graph, node, lambda e, sh=shorts: any(
+                a in nz.facts_of_edge(e) for a in sh))
             ctx.ob('C18.3', func, node, ok,
                    'only full batches are uploaded (len(batch) >= '
                    'batch_size)')
@@ -259,7 +285,13 @@ def _keep_newest(ctx, mod):
         if isinstance(sub, ast.Assign) and isinstance(sub.targets[0],
                                                       ast.Name):
             defs[sub.targets[0].id] = sub.value
-    nodes_def = defs.get('nodes')
+    # the history listing: the local bound to sorted(<children of the
+    # history node>), whatever it is called
+    lname = None
+    for cand, val in sorted(defs.items()):
+        if isinstance(val, ast.Call) and 'get_children' in N.txt(val):
+            lname = cand
+    nodes_def = defs.get(lname or 'nodes')
     ok = isinstance(nodes_def, ast.Call) and \
         K.callee_text(nodes_def) == 'sorted' and \
         K.kwarg(nodes_def, 'reverse') is None and \
@@ -279,7 +311,8 @@ def _keep_newest(ctx, mod):
             it = defs[it.id]
         okp = False
         upper = None
-        if isinstance(it, ast.Subscript) and N.txt(it.value) == 'nodes' \
+        if isinstance(it, ast.Subscript) and \
+                N.txt(it.value) == (lname or 'nodes') \
                 and isinstance(it.slice, ast.Slice) and \
                 it.slice.step is None and (
                     it.slice.lower is None or
@@ -288,7 +321,8 @@ def _keep_newest(ctx, mod):
             src = defs.get(N.txt(upper), upper) if upper is not None \
                 else None
             lin = N.linear(src) if src is not None else {}
-            okp = lin == {'len(nodes)': 1, max_count: -1}
+            okp = lin == {'len(%s)' % (lname or 'nodes'): 1,
+                          max_count: -1}
         ctx.ob('C18.4', func, loop, okp,
                'the oldest len(nodes) - max_count nodes are deleted '
                '(prefix of the ascending order): %s' % N.txt(it),
